@@ -188,14 +188,19 @@ class C20(Prop):
 
     def _pda(self, c, ctx):
         m = O.pdamod()
-        for scheme in ("plain", "int", "helper"):
+        for scheme in ("plain", "int", "helper", "helper2", "helper2/no start stack symbol"):
             q, g, trans, fi = c
             if scheme == "helper":
                 sn, kn = ["starting_q1", "q1"][:q], ["INITIAL_STACK_HIDDEN", "X y"][:g]
+            elif scheme.startswith("helper2"):      # a state named like the node the exporter invents for the start stack symbol
+                sn, kn = ["INITIAL_STACK_HIDDEN", "q1"][:q], ["Z", "X y"][:g]
             else:
                 sn, kn = GP.names(scheme, q, g)
-            p = m.PDA(states=set(sn), start_state=sn[0], start_stack_symbol=kn[0],
-                      final_states={sn[i] for i in range(q) if fi >> i & 1})
+            if scheme.endswith("no start stack symbol"):
+                p = m.PDA(states=set(sn), start_state=sn[0], final_states={sn[i] for i in range(q) if fi >> i & 1})
+            else:
+                p = m.PDA(states=set(sn), start_state=sn[0], start_stack_symbol=kn[0],
+                          final_states={sn[i] for i in range(q) if fi >> i & 1})
             for s, a, X, r, gamma in trans:
                 p.add_transition(sn[s], "epsilon" if a == 0 else GP.IN[a], kn[X], sn[r], [kn[y] for y in gamma])
             before = O.extract_pda(p)
